@@ -62,11 +62,14 @@ func (c *Ctx) barrierlessLoaderFuncs(e loaderEntry) []*ssa.Function {
 	if e.fn == nil {
 		return nil
 	}
-	funcs := c.reachableStop([]*ssa.Function{e.fn}, false, isBarrier)
+	funcs := c.reachableStop([]*ssa.Function{e.fn}, false, func(f *ssa.Function) bool { return isBarrier(f) || isByteSource(f) })
 	var out []*ssa.Function
 	for f := range funcs {
 		if isBarrier(f) {
 			continue // its own body runs under its barrier (installed in the entry block)
+		}
+		if isByteSource(f) && f != e.fn {
+			continue
 		}
 		out = append(out, f)
 	}
@@ -743,4 +746,26 @@ func sameLenCall(a, b ssa.Value) bool {
 	}
 	x, y := ca.Call.Args[0], cb.Call.Args[0]
 	return x == y || sameValueExpr(x, y) || sameLocalLoad(x, y)
+}
+
+// isByteSource: Load/MustLoad of a resource that only *obtains* bytes (file, URL, git, reader, embedded). C20 quantifies
+// over the bytes presented to a loader, not over I/O faults while fetching them; the JSON resources are not sources, they
+// translate the bytes and stay in scope.
+func isByteSource(f *ssa.Function) bool {
+	if f == nil || f.Signature.Recv() == nil || fnPkgShort(f) != "pkg" {
+		return false
+	}
+	root := f
+	for root.Parent() != nil {
+		root = root.Parent()
+	}
+	if root.Name() != "Load" && root.Name() != "MustLoad" {
+		return false
+	}
+	t := root.Signature.Recv().Type()
+	if pt, ok := t.(*types.Pointer); ok {
+		t = pt.Elem()
+	}
+	n, ok := t.(*types.Named)
+	return ok && !strings.HasPrefix(n.Obj().Name(), "JSON")
 }
